@@ -200,6 +200,13 @@ func finishStatus(o *Obligation) {
 // GenerateProp builds all obligations of a property.
 func GenerateProp(pr *Program, prop string, onlyFunc string) *PropResult {
 	res := &PropResult{Prop: prop}
+	if onlyFunc == "analysis" {
+		if st := pr.RunAnalyses(prop); len(st) > 0 {
+			res.Reports = append(res.Reports, &FuncReport{Func: "static analyses", Pkg: "(all consensus packages)", Prop: prop, Obls: st})
+			res.Obls = st
+		}
+		return res
+	}
 	var keys []string
 	for k := range pr.Contracts {
 		keys = append(keys, k)
@@ -242,7 +249,7 @@ func GenerateProp(pr *Program, prop string, onlyFunc string) *PropResult {
 		res.Reports = append(res.Reports, rep)
 		res.Funcs = append(res.Funcs, pr.fnTagOf(fi))
 	}
-	if onlyFunc == "" || onlyFunc == "analysis" {
+	if onlyFunc == "" {
 		if st := pr.RunAnalyses(prop); len(st) > 0 {
 			res.Reports = append(res.Reports, &FuncReport{Func: "static analyses", Pkg: "(all consensus packages)", Prop: prop, Obls: st})
 		}
